@@ -65,6 +65,13 @@ CHECKS = {
                      "to a sent frame (or a packet-aligned tail right after start/discard), in sending order; retransmissions are RTX copies of "
                      "the original when negotiated, verbatim otherwise; a NACK lists <=128 packets; nothing kills a transport or a media task; "
                      "in liveness runs every frame is eventually delivered."),
+    "C04": dict(engine="media_sim", design="10/C04", technique="deterministic simulation: pairs of real RTCDtlsTransports over the simulated network with generated fingerprint lists, SRTP profile lists and roles; expected verdict from hashlib; delivery oracle under delay and bit-burst corruption",
+                text="Seeded exploration of configurations (fingerprint lists: subsets/permutations of sha-256/384/512, case variants, one "
+                     "altered hex digit, unsupported algorithms, mixtures; SRTP profile preference lists on each side; explicit and ICE-derived "
+                     "roles): each side ends connected iff >=1 supported fingerprint is listed, all supported ones match the peer certificate "
+                     "(case-insensitively) and the profile lists intersect, otherwise failed, refusing sends and delivering nothing; when both "
+                     "connect, RTP, RTCP and data sent in both directions arrive field-for-field unless altered in transit, and nothing altered "
+                     "is delivered."),
 }
 
 NOT_APPLICABLE = [
